@@ -186,8 +186,9 @@ class ActionWalker(xtuml.Walker):
             self.accept(child)
         
     def accept_ReturnNode(self, node):
-        value = self.accept(node.expression)
-        self.return_value = value.fget()
+        if node.expression is not None:
+            value = self.accept(node.expression)
+            self.return_value = value.fget()
         raise ReturnException()
 
     def accept_BreakNode(self, node):
